@@ -10,7 +10,7 @@ use serde_json::json;
 use std::collections::BTreeSet;
 use txtpp::Mode;
 
-pub const SIGMA_CLEAN: [&str; 17] = [
+pub const SIGMA_CLEAN: [&str; 18] = [
     "+TXTPP#temp sub/t3.out",
     "-TXTPP#temp ./t4.out",
     "-TXTPP#include missing.txt",
@@ -28,6 +28,7 @@ pub const SIGMA_CLEAN: [&str; 17] = [
     "-body",
     "TXTPP#run true",
     "-TXTPP#",
+    "-TXTPP#temp h.txtpp.txt",
 ];
 
 fn helpers_clean() -> Tree {
@@ -37,6 +38,8 @@ fn helpers_clean() -> Tree {
     tfile(&mut t, "sub/keep2.txt", "keep me too\n");
     tfile(&mut t, "t.outx", "near miss\n");
     tfile(&mut t, "s.txt.bak", "near miss\n");
+    // an existing txtpp source in the infix name shape: a temp directive naming it is an error, never a target
+    tfile(&mut t, "h.txtpp.txt", "another source\n");
     t
 }
 
@@ -334,7 +337,7 @@ pub fn run_into(rep: &Report, prop: &str) {
     let max_len = if rep.thorough() { if prop == "C07" || prop == "C10" { 5 } else { 4 } } else { 3 };
     let help = helpers_clean();
     rep.set("source_enumeration_alphabet", json!(SIGMA_CLEAN));
-    rep.set("source_enumeration_bound", json!(format!("all sources of <= {max_len} lines over the 17-line alphabet above (directive look-alikes as continuation lines of multi-line directives, temp directives naming pre-existing files)")));
+    rep.set("source_enumeration_bound", json!(format!("all sources of <= {max_len} lines over the 18-line alphabet above (directive look-alikes as continuation lines of multi-line directives, temp directives naming pre-existing files)")));
     sharded_dyn(rep, par_threads(), |_k, _n, next, rep| {
         let b = Bench::new(&help);
         let stop = || rep.over_cap();
